@@ -20,6 +20,7 @@ sys.path.insert(0, repo)
 logging.disable(logging.CRITICAL)
 from numba_scfg.core import utils  # noqa: E402
 from numba_scfg.core.datastructures.flow_info import FlowInfo  # noqa: E402
+from numba_scfg.core.datastructures.scfg import SCFG  # noqa: E402
 import numba_scfg  # noqa: E402
 assert os.path.realpath(numba_scfg.__file__).startswith(os.path.realpath(repo)), numba_scfg.__file__
 
@@ -138,9 +139,15 @@ def g_not(a):
 '''
 
 
+# long bodies: jumps over more than 255 code units need EXTENDED_ARG prefixes
+GEN_LONG = ("def g_long_if(a):\n    if a:\n" + "        a = a + 1\n" * 150 + "    return a\n"
+            "def g_long_for(xs, a):\n    for x in xs:\n" + "        a = a + x\n" * 150 + "    return a\n"
+            "def g_long_while(a):\n    while a:\n" + "        a = a - 1\n" * 150 + "    else:\n        return 0\n    return a\n")
+
+
 def generated_codes():
     ns = {}
-    exec(compile(GEN_SRC, "<generated>", "exec"), ns)  # noqa: S102
+    exec(compile(GEN_SRC + GEN_LONG, "<generated>", "exec"), ns)  # noqa: S102
     for k, v in ns.items():
         if isinstance(v, types.FunctionType):
             yield "generated." + k, v.__code__
@@ -182,9 +189,13 @@ def main():
             scfg = fi.build_basicblocks()
             real = [(b.name, b.begin, b.end, list(b._jump_targets)) for b in scfg.graph.values()]
             real_abort = None
+            # instruction retrieval: what each block hands out through get_instructions
+            bcmap = SCFG.bcmap_from_bytecode(dis.Bytecode(co))
+            got_insts = {b.name: [i.offset for i in b.get_instructions(bcmap)] for b in scfg.graph.values()}
         except Exception as e:  # noqa: BLE001
             tb = [f for f in traceback.extract_tb(e.__traceback__) if "numba_scfg" in f.filename]
             real, real_abort = None, type(e).__name__ + "@" + (tb[-1].name if tb else "?")
+            got_insts = None
         offs = [i.offset for i in insts]
         tins = []
         for k, i in enumerate(insts):
@@ -195,14 +206,20 @@ def main():
         mins = ",".join(f"{i.offset}:{i.opname}:{i.argval if isinstance(i.argval, int) and i.opcode in JUMPS else 0}:{1 if i.is_jump_target else 0}" for i in insts)
         lines.append(f"BC {tabs} {mins}")
         lines.append("BCSPEC " + ",".join(tins))
-        meta.append((name, real, real_abort, offs, sorted({i.opname for i in insts if truth_class(i) != "o"})))
+        lines.append("GI " + ",".join(map(str, offs)) + " " + (",".join(f"{b}:{e}" for _, b, e, _ in real) if real else "-"))
+        meta.append((name, real, real_abort, offs, sorted({i.opname for i in insts if truth_class(i) != "o"}), got_insts))
     p = subprocess.run([driver], input="\n".join(lines) + "\n", capture_output=True, text=True)
     rep = p.stdout.split("\n")
     mism, viol = [], []
     ops_seen = set()
     nontrivial = 0
-    for k, (name, real, real_abort, offs, jops) in enumerate(meta):
-        model, spec = rep[2 * k], rep[2 * k + 1]
+    for k, (name, real, real_abort, offs, jops, got_insts) in enumerate(meta):
+        model, spec, gi = rep[3 * k], rep[3 * k + 1], rep[3 * k + 2]
+        if real_abort is None:
+            mgi = [[int(x) for x in r.split(",") if x not in ("", "-")] for r in gi.split(";")]
+            rgi = [got_insts[nm] for nm, _, _, _ in real]
+            if mgi != rgi:
+                mism.append({"function": name, "what": "get_instructions", "impl": str(rgi)[:200], "model": gi[:200]})
         ops_seen.update(jops)
         # correspondence with the model
         if real_abort is not None:
@@ -237,6 +254,14 @@ def main():
                 nxt = [o for o in offs if o >= tb_]
                 first_of.append(nxt[0] if nxt else -1)
             got.append((mem[0] if mem else -1, mem, tuple(first_of)))
+        # every instruction of the stream is handed out by exactly one block, in order
+        # (Lean: Scfg.C09.getInstrs_spec -- the retrieval loop returns exactly the offsets of the range)
+        bad_gi = [nm for nm, b, e, ts in real if got_insts[nm] != [o for o in offs if b <= o < e]]
+        if bad_gi:
+            nm = bad_gi[0]
+            viol.append({"function": name, "what": f"get_instructions of block {nm} returns offsets {got_insts[nm][:6]}… instead of the instructions of its range",
+                         "ops": jops})
+            continue
         if sorted(got) != sorted(want):
             diff = [g for g in got if g not in want][:2]
             viol.append({"function": name, "what": "blocks/successors differ from the interpreter's control flow",
